@@ -52,19 +52,22 @@ SPEC = {
         "staking/slash.go:doPenalize",
         "staking/slash.go:takePenalty",
         "core/protocol_version_processor.go:BlockChain.LookBackVldReaderForRound",
+        "consensus/ucon/voter.go:Voter.signVote",
+        "consensus/ucon/voter.go:Voter.processVoteMsg",
+        "consensus/ucon/vote_bls.go:VoteBLSMgr.SignVote",
     ],
     "level_text": "Coq theorems over all evidence lists, ledgers, look-back chains and signature oracles: an honest validator can be slashed only through one of the listed finding classes (refuted in full strength, with witnesses); real equivocation is always acted on; doPenalize runs at most once per validator and block and an evidence acts at one height; takePenalty never exceeds the amount, never drives a source negative and accounts for every unit; the validator's replay of the builder's slash data reproduces the builder's effects outside the zero-penalty class. The hand model mirrors processDoubleSignV5 / processEvidences / slashing / replaySlashing / doPenalize / takePenalty / LookBackVldReaderForRound and is compared inside Coq with the real code (real BLS keys and signatures, real state database and header store) on hundreds of adversarial cases per run.",
     "level_note": "Trusted: Coq kernel + vm_compute; BLS enters as a function with the ideal-signature hypothesis; fidelity of the hand model rests on the differential check (reach reported in evidence); uint64 wrap-around, RLP decoding and the ValidatorsStat bookkeeping are outside the model; four open findings are listed in props/C05.py (KNOWN) with witnesses in corpus/C05 and write-ups in fixes/.",
     "harness": "c05",
-    "hooks": ["core/zz_verif_c05.go", "staking/zz_verif_c05.go"],
+    "hooks": ["core/zz_verif_c05.go", "staking/zz_verif_c05.go", "consensus/ucon/zz_verif_c05.go"],
     "translators": [["params", "-out", "{gen}/C05Params.v"]],
-    "coq_targets": ["C05/Model.vo", "C05/ProofsPenalty.vo", "C05/ProofsEvidence.vo", "C05/ProofsHonest.vo",
+    "coq_targets": ["C05/Model.vo", "C05/ProofsPenalty.vo", "C05/ProofsShares.vo", "C05/ProofsEvidence.vo", "C05/ProofsHonest.vo",
                     "gen/C05Params.vo", "C05/Bridge.vo", "C05/Properties.vo"],
     "properties_v": "C05/Properties.v",
     "obligations": [
         "C05_honest_safe_refuted", "C05_honest_safe_outside", "C05_honest_record_kept", "C05_duplicate_class",
         "C05_real_equivocation_punished", "C05_once", "C05_once_token_bound", "C05_one_height",
-        "C05_bound", "C05_penalize_effects", "C05_builder_validator_outside", "C05_builder_validator_refuted",
+        "C05_bound", "C05_shares", "C05_penalize_effects", "C05_builder_validator_outside", "C05_builder_validator_refuted",
         "C05_real_params_ok", "C05_nonvacuous_honest", "C05_nonvacuous_bound", "C05_nonvacuous_builder",
     ],
     "cases": {"quick": 500, "thorough": 6000},
@@ -72,8 +75,30 @@ SPEC = {
     "gen_args": [],
     "allowed_axioms": [],
     "finding_key": lambda h: h.get("what"),
-    "trusted_base": [],
-    "assumptions": [],
-    "modelled": [],
-    "partial": [],
+    "trusted_base": [
+        "Coq 8.16.1 kernel (vm_compute for the witnesses, the non-vacuity examples and the finite parameter check; no native_compute); coqchk in the thorough tier",
+        "no axioms: every obligation is Closed under the global context",
+        "hand-written model coq/C05/Model.v of processDoubleSignV5 / processEvidences / slashing / replaySlashing / doPenalize / takePenalty / LookBackVldReaderForRound",
+        "BLS verification is a function parameter of the model; theorems about honest validators assume ideal signatures (a signature valid under an honest key was produced by its owner on exactly that hash||round||index)",
+        "correspondence harness harness/cmd/c05 (Go, real BLS keys and signatures, real StateDB / header store / BlockChain look-back via add-only hooks) + in-Coq evaluation of the model on the same cases; the harness' own validator-set ordering, look-back arithmetic and signature-validity table",
+        "translator 'c05 params' (StakeUint, CommissionRateBase, 2*ACoCHTFrequency, PenaltyFractionForDoubleSign of all nets -> coq/gen/C05Params.v)",
+        "the harness' measurement of which of the two proposed repairs the working tree contains (passed to the model as fx)",
+    ],
+    "assumptions": [
+        "C02 (proved separately): an honest validator signs at most one vote per kind and (round, index), two for next-index - hypothesis one_vote_per_kind of the honest-validator theorems",
+        "ideal BLS signatures (hypothesis unforgeable); distinct (hash, round, index) give distinct payloads (hash is 32 bytes, index 4 bytes)",
+        "ledger entries are well formed for the bound theorems: Stake > 0, Stake >= SelfStake + sum of delegation stakes, stakes >= 0, delegators distinct (C08's invariant); outside it the model still mirrors the code (the harness generates such ledgers) but no bound is claimed",
+        "a validator with Stake = 0 and a positive penalty makes takePenalty panic (division by zero); the model returns None, the harness matches the panic, the theorems carry v_stake <> 0",
+        "uint64 wrap-around of rounds / expel heights and uint32 signer indexes beyond the set are modelled with unbounded N",
+        "RLP encoding/decoding of evidences and slash data is not modelled (undecodable data is a separate evidence / slash-data constructor)",
+        "ValidatorsStat totals and the validator journal (C08, C09) are not modelled",
+        "delegations are sorted by delegator without duplicates (UpdateDelegationFrom's binary search)",
+    ],
+    "modelled": ["staking.(*Staking).processDoubleSignV5", "staking.(*Staking).processEvidences", "staking.(*Staking).slashing",
+                 "staking.(*Staking).replaySlashing", "staking.doPenalize", "staking.takePenalty",
+                 "core.(*BlockChain).LookBackVldReaderForRound"],
+    "partial": [
+        "C05_honest_safe_outside: the full-strength clause (honest validators are never slashed) is refuted (C05_honest_safe_refuted); what is proved is that slashing an honest validator requires an evidence of a listed finding class",
+        "C05_builder_validator_outside: holds outside the zero-penalty class (refuted inside it by C05_builder_validator_refuted) or with the proposed repair",
+    ],
 }
